@@ -90,6 +90,7 @@ class CoreDriver:
         self.loop = world.loop
         self.net.on_conn = self._on_conn
         self.sess = {}
+        self.inbuf = {}
         self.held = {}  # s -> future (backend gate)
         self.lheld = {}  # s -> future (listener gate)
         self.gate_plan = {}  # s -> [op or None, nth]
@@ -110,16 +111,15 @@ class CoreDriver:
         if c.kind == "ctl":
             asm = ReplyAsm(lambda code, lines: self._reply(s, code, lines))
             c.srv.on_write = asm.feed
-            c.cli.on_deliver = lambda chunk: self._ctl_delivered(s, len(chunk))
+            self.inbuf[s] = bytearray()
+            c.cli.on_deliver = lambda chunk: self._ctl_delivered(s, chunk)
             def ctl_eof():
                 # a line cut short by EOF is still handed to the dispatcher by StreamReader.readline()
-                x = self.sess.get(s)
-                if x is not None and x.tail and x.delivered_total >= x.sent_total:
-                    tail, x.tail = x.tail, b""
-                    try:
-                        net.log("Send", s=s, **classify_line(tail.decode("utf-8")))
-                    except UnicodeDecodeError:
-                        net.log("Garbage", s=s)
+                buf = self.inbuf.get(s)
+                if buf:
+                    tail = bytes(buf)
+                    del buf[:]
+                    self._line(s, tail)
                 net.log("Vanish", s=s)
 
             c.srv.on_eof = ctl_eof
@@ -146,42 +146,39 @@ class CoreDriver:
                 if m:
                     st.port = int(m.group(1))
 
-    def _ctl_delivered(self, s, n):
-        st = self.sess[s]
-        st.delivered_total += n
-        while st.pending_lines and st.pending_lines[0][0] <= st.delivered_total:
-            head = st.pending_lines.pop(0)
-            if head[1] == "garbage":
-                self.net.log("Garbage", s=s)
-            elif head[1] is not None:
-                self.net.log("Send", s=s, **head[1])
-
-    def _ctl_send(self, x, raw):
-        """Queue raw bytes on the control connection, classifying every line the server will see."""
-        data = x.tail + raw
-        base = x.sent_total - len(x.tail)
-        pos = 0
+    def _ctl_delivered(self, s, chunk):
+        """Bytes of the control stream reach the server: every completed line is one Send (or Garbage) event."""
+        buf = self.inbuf.setdefault(s, bytearray())
+        if buf is None:
+            return
+        buf += chunk
         while True:
-            i = data.find(b"\n", pos)
+            i = buf.find(b"\n")
             if i < 0:
                 break
-            line = data[pos:i + 1]
-            try:
-                text = line.decode("utf-8")
-                ok = len(line) <= 2 ** 16
-            except UnicodeDecodeError:
-                text, ok = None, False
-            if ok:
-                fields = classify_line(text)
-                x.last_verb = fields["v"]
-                x.pending_lines.append([base + i + 1, fields])
-            else:
-                x.pending_lines.append([base + i + 1, "garbage"])
-            pos = i + 1
-        x.tail = data[pos:]
-        x.sent_total += len(raw)
-        if len(x.tail) > 2 ** 16:
-            x.pending_lines.append([x.sent_total, "garbage"])
+            line = bytes(buf[: i + 1])
+            del buf[: i + 1]
+            self._line(s, line)
+        if len(buf) > 2 ** 16:
+            self.net.log("Garbage", s=s)
+            self.inbuf[s] = None
+
+    def _line(self, s, line):
+        try:
+            text = line.decode("utf-8")
+            ok = len(line) <= 2 ** 16
+        except UnicodeDecodeError:
+            text, ok = None, False
+        if not ok:
+            self.net.log("Garbage", s=s)
+            return
+        fields = classify_line(text)
+        x = self.sess.get(s)
+        if x is not None:
+            x.last_verb = fields["v"]
+        self.net.log("Send", s=s, **fields)
+
+    def _ctl_send(self, x, raw):
         x.ctl.send(raw)
 
     def _fs_gate(self, s, op, segs, kt):
